@@ -330,6 +330,10 @@ func (rs *runState) judge(prop string, clientFinished bool, out *core.Outcome) {
 		if cr.Panic != nil {
 			continue // reported above; what the dead reader did not read is not judged twice
 		}
+		if cr.ReadEnd < 0 && !cr.inRead {
+			sim.Probe("reader-still-pausing-at-end-of-run")
+			continue // it was not waiting for data: what it has not read yet is not missing
+		}
 		if len(cr.Got) < len(s.min) {
 			sim.Violate(prop, "read-stream", "frames-lost/"+tag, "connection %d (%s): Read returned %d bytes (reader end: %q) but the TNC had delivered %d bytes of ARQ payload to the host before the connection was closed by the client (sent in total: %d)", cr.Idx, cr.Via, len(cr.Got), cr.ReadErr, len(s.min), len(s.max))
 		}
